@@ -182,6 +182,9 @@ fn long_buffers(ctx: &Ctx, rep: &mut Report) {
             counts.push(n);
         }
     }
+    // far beyond: "however much has scrolled into the scrollback" (no history is too old to
+    // be re-wrapped)
+    counts.extend(ctx.tier.pick(vec![65_536, 100_001, 131_073], vec![65_535, 65_536, 65_537, 100_000, 100_001, 131_072, 131_073, 262_145, 524_289]));
     counts.sort();
     counts.dedup();
     let bad: Vec<(usize, String)> = counts
@@ -295,6 +298,66 @@ fn wide_rows(ctx: &Ctx, rep: &mut Report) {
     }
 }
 
+/// Densely filled screens narrowed to the extreme: the text below the cursor re-wraps into
+/// tens of thousands of rows; the cursor stays on its character wherever it was (top,
+/// middle, bottom), whatever has to be dropped below it.
+fn dense_extreme_narrowing(ctx: &Ctx, rep: &mut Report) {
+    use rayon::prelude::*;
+    let sizes: Vec<(usize, usize)> = ctx.tier.pick(vec![(40, 30), (100, 50), (300, 200)], vec![(40, 30), (100, 50), (300, 200), (400, 200), (132, 400), (1000, 70)]);
+    let mut cases: Vec<((usize, usize), (usize, usize), (usize, usize))> = vec![];
+    for &(w, h) in &sizes {
+        for cur in [(0usize, 0usize), (w / 2, 3), (w - 1, h / 2), (1, h - 2), (w - 1, h - 1)] {
+            for to in [(1usize, h), (1, 10), (2, h), (3, 7), (w / 7 + 1, h)] {
+                cases.push(((w, h), cur, to));
+            }
+        }
+    }
+    let bad: Vec<String> = cases
+        .par_iter()
+        .filter_map(|&((w, h), (cc, cr), (tw, th))| {
+            let r = crate::engine::guarded(|| {
+                let mut vt = build_vt(w, h, None);
+                let mut s = String::new();
+                for r in 0..h {
+                    // rows alternate between soft-wrapped full rows and shorter hard-ended ones
+                    let len = if r % 3 == 2 { w / 2 } else { w };
+                    for k in 0..len {
+                        s.push(char::from_u32('a' as u32 + ((r * 7 + k) % 26) as u32).unwrap());
+                    }
+                    if r % 3 == 2 && r + 1 < h {
+                        s.push_str("\r\n");
+                    }
+                }
+                s.push_str(&format!("\x1b[{};{}H", cr + 1, cc + 1));
+                let _ = vt.feed_str(&s);
+                let mut out = Out::default();
+                let t = format!("{}x{} full of text, cursor at column {} row {}", w, h, cc, cr);
+                if !resize_checked(&mut vt, tw, th, &mut out, &t) || !resize_checked(&mut vt, w, h, &mut out, &t) {
+                    let v = &out.violations[0];
+                    let d: String = v.detail.chars().take(400).collect();
+                    return Some(format!("{} resized to {}x{} and back: {}: {}", t, tw, th, v.oracle, d));
+                }
+                None
+            });
+            match r {
+                Ok(x) => x,
+                Err(p) => Some(format!("{}x{} cursor ({}, {}) to {}x{}: panic: {}", w, h, cc, cr, tw, th, p)),
+            }
+        })
+        .collect();
+    let runs = cases.len() as u64 * 2;
+    rep.evaluations += runs;
+    rep.traces_validated += runs;
+    rep.transitions += runs;
+    rep.distinct_nontrivial += cases.len() as u64;
+    rep.parts.push(serde_json::json!({"part":"dense-screens-extreme-narrowing","sizes":sizes.iter().map(|s| format!("{}x{}", s.0, s.1)).collect::<Vec<_>>(),"cases":cases.len(),"resizes":runs,"violating":bad.len()}));
+    println!("part dense-screens-extreme-narrowing: {} (size, cursor, target) cases, {} violating", cases.len(), bad.len());
+    if let Some(d) = bad.first() {
+        emit_violation(ctx, rep, "C10", serde_json::json!({"part":"dense-screens-extreme-narrowing","oracle":"resize-relation","observed":d}));
+        rep.violations += bad.len() as u64 - 1;
+    }
+}
+
 fn make_sys(_tier: Tier) -> Sys {
     Sys {
         sizes: S4.to_vec(),
@@ -311,6 +374,7 @@ pub fn run(ctx: &Ctx) -> Report {
     run_part(ctx, &mut rep, &modes_part(ctx.tier, &sys1));
     long_buffers(ctx, &mut rep);
     wide_rows(ctx, &mut rep);
+    dense_extreme_narrowing(ctx, &mut rep);
     let n = rep.counters.get("seed-bfs+resize-chains.resizes_checked").copied().unwrap_or(0)
         + rep.counters.get("modes-and-region-dont-matter.resizes_checked").copied().unwrap_or(0);
     rep.evaluations += n;
@@ -326,6 +390,12 @@ pub fn run(ctx: &Ctx) -> Report {
 pub fn replay(ctx: &Ctx, v: &Value) -> bool {
     let tier = if v["tier"] == "thorough" { Tier::Thorough } else { Tier::Quick };
     let sys = make_sys(tier);
+    if v["part"] == "dense-screens-extreme-narrowing" {
+        let mut rep = Report::new();
+        let c2 = Ctx { id: ctx.id.clone(), tier: Tier::Thorough, seed: 0, start: ctx.start, known: ctx.known.clone(), replay_dir: ctx.replay_dir.clone() };
+        dense_extreme_narrowing(&c2, &mut rep);
+        return rep.violations > 0;
+    }
     if v["part"] == "wide-rows" {
         let mut rep = Report::new();
         let c2 = Ctx { id: ctx.id.clone(), tier: Tier::Thorough, seed: 0, start: ctx.start, known: ctx.known.clone(), replay_dir: ctx.replay_dir.clone() };
